@@ -462,11 +462,11 @@ def run_shard(tier, seed, shard, nshards, res):
             kinds = [gen.pick(rng, KINDS) for _ in range(rng.randrange(2, 6))]
             case(dc, sc, res, rng, kinds, rng.random() < 0.3, 'c17 combo seed=%d shard=%d i=%d' % (seed, shard, i))
             res.count('combined_damage_cases')
-            if res.counters.get('violations_raw', 0) > 10:
-                return
+            if res.new_violations() > 10:
+                break
         probe.install()
         for i in range(12 if tier == 'quick' else 150):
             rng = common.rng_for(seed, 'c17w', shard, i)
             check_beside_a_writer(dc, sc, res, rng, 'c17 check beside a writer seed=%d shard=%d i=%d' % (seed, shard, i))
-            if res.counters.get('violations_raw', 0) > 10:
+            if res.new_violations() > 10:
                 return
